@@ -35,6 +35,10 @@ def tree_classes():
     c.append(('gen1', ['gen ete3 1 1 gamma 1', 'dump']))
     c.append(('gen1c', ['gen caterpillar 1 0 uniform 1', 'dump']))
     c.append(('gen0c', ['gen caterpillar 0 1 exponential 1', 'dump']))
+    c.append(('gen1y', ['gen yule 1 1 uniform 3', 'dump']))
+    c.append(('gen0e', ['gen ete3 0 0 uniform 3', 'dump']))
+    c.append(('gen2y', ['gen yule 2 1 gamma 3', 'dump']))
+    c.append(('gen3c', ['gen caterpillar 3 1 uniform 3', 'dump']))
     return c
 
 def queries(bound):
